@@ -90,6 +90,8 @@ struct Gen<'a> {
     globals: Vec<String>,
     lexicals: Vec<String>,
     gens: Vec<String>,
+    /// names that a failed script declared lexically: they must not exist afterwards
+    ghosts: Vec<String>,
 }
 
 impl Gen<'_> {
@@ -100,8 +102,20 @@ impl Gen<'_> {
 
     /// An entry designed to succeed; may have script-visible side effects.
     fn success(&mut self) -> Entry {
-        let r = self.rng.below(12);
+        let r = self.rng.below(if self.ghosts.is_empty() { 12 } else { 15 });
         let (src, kind): (String, &str) = match r {
+            12 | 13 => {
+                // a name that only a FAILED script declared is still undeclared
+                let g = self.rng.pick(&self.ghosts).clone();
+                (format!("print('ghost {g}', typeof {g}); try {{ {g}; print('resolved'); }} catch (e) {{ print(e.name); }}"), "ghost-probe")
+            }
+            14 => {
+                // ... and can be declared by a later script
+                let i = self.rng.idx(self.ghosts.len());
+                let g = self.ghosts.remove(i);
+                self.lexicals.push(g.clone());
+                (format!("let {g} = {}; print('{g}', {g});", self.rng.below(100)), "ghost-declared-later")
+            }
             0 => {
                 let g = self.fresh("g");
                 self.globals.push(g.clone());
@@ -109,7 +123,12 @@ impl Gen<'_> {
             }
             1 if !self.globals.is_empty() => {
                 let g = self.rng.pick(&self.globals).clone();
-                (format!("{g} = ({g}|0) + {}; print('{g}', {g});", self.rng.below(9)), "mut-var")
+                if g.starts_with('f') {
+                    // a global function defined by an earlier successful entry still is what it was
+                    (format!("print('{g}', typeof {g} === 'function' ? {g}(3) : typeof {g});"), "mut-var")
+                } else {
+                    (format!("{g} = ({g}|0) + {}; print('{g}', {g});", self.rng.below(9)), "mut-var")
+                }
             }
             2 => {
                 let l = self.fresh("lex");
@@ -184,7 +203,7 @@ impl Gen<'_> {
 
     /// An entry designed to fail without script-visible side effects besides its prints.
     fn failing(&mut self) -> Entry {
-        let r = self.rng.below(20);
+        let r = self.rng.below(21);
         let k = self.rng.range(0, 6);
         let budgeted = self.rng.chance(1, 5);
         let mk = |src: String, budgeted: bool, rng: &mut Rng| {
@@ -232,7 +251,53 @@ impl Gen<'_> {
                 mk("JSON.parse('[1]', function(k,v){ throw new Error('rev'); });".into(), budgeted, self.rng),
                 "throw-reviver",
             ),
-            10 => (mk("let x = ;".into(), false, self.rng), "syntax-error"),
+            10 if self.rng.chance(1, 2) => (mk("let x = ;".into(), false, self.rng), "syntax-error"),
+            10 | 19 if !self.globals.is_empty() && self.rng.chance(2, 3) => {
+                // a lexical declaration that collides with an existing global var / function: the script
+                // is rejected by GlobalDeclarationInstantiation and the global keeps working
+                let g = self.rng.pick(&self.globals).clone();
+                let src = match self.rng.below(4) {
+                    0 => format!("print('never'); let {g} = 1;"),
+                    1 => format!("const {g} = 1; print('never');"),
+                    2 => format!("class {g} {{}} print('never');"),
+                    _ => format!("let other{g} = 2, {g} = 1;"),
+                };
+                if src.contains("other") {
+                    self.ghosts.push(format!("other{g}"));
+                }
+                (mk(src, budgeted, self.rng), "gdi-lexical-collides-with-global")
+            }
+            10 | 19 if self.rng.chance(1, 3) => {
+                // several top-level functions, one of which cannot be declared: nothing of the script
+                // may be installed (all CanDeclareGlobalFunction checks precede every binding)
+                let first = if !self.globals.is_empty() && self.rng.chance(1, 2) {
+                    self.rng.pick(&self.globals).clone()
+                } else {
+                    let n = self.fresh("ghost");
+                    self.ghosts.push(n.clone());
+                    n
+                };
+                let bad = *self.rng.pick(&["NaN", "Infinity", "undefined"]);
+                let src = match self.rng.below(3) {
+                    0 => format!("function {first}(a){{ return 'replaced'; }} function {bad}(){{}}"),
+                    1 => format!("print('never'); function {first}(){{ return 'replaced'; }} var alsoNew{first} = 1; function {bad}(){{}} function tail{first}(){{}}"),
+                    _ => format!("(0,eval)(\"function {first}(){{ return 'replaced'; }} function {bad}(){{}}\");"),
+                };
+                (mk(src, budgeted, self.rng), "gdi-fails-with-functions")
+            }
+            10 | 19 => {
+                // lexical declarations in a script whose instantiation fails for another reason
+                let n = self.fresh("ghost");
+                self.ghosts.push(n.clone());
+                let src = match self.rng.below(5) {
+                    0 => format!("let {n} = 1; function NaN(){{}}"),
+                    1 => format!("const {n} = 1; let undefined = 2;"),
+                    2 => format!("class {n} {{}} function Infinity(){{}} print('never');"),
+                    3 => format!("let {n} = 1; const NaN = 2;"),
+                    _ => format!("print('never'); let {n}; var undefined; function undefined(){{}}"),
+                };
+                (mk(src, budgeted, self.rng), "gdi-fails-with-lexicals")
+            }
             11 if !self.lexicals.is_empty() => {
                 let l = self.rng.pick(&self.lexicals).clone();
                 (mk(format!("print('never'); var {l};"), budgeted, self.rng), "gdi-redeclaration")
@@ -393,7 +458,7 @@ pub fn generate(rng: &mut Rng, tier: Tier) -> Value {
     };
     let len = rng.range(3, max);
     let fail_bias = rng.range(1, 6);
-    let mut g = Gen { rng, n: 0, globals: vec![], lexicals: vec![], gens: vec![] };
+    let mut g = Gen { rng, n: 0, globals: vec![], lexicals: vec![], gens: vec![], ghosts: vec![] };
     let mut entries = vec![];
     for _ in 0..len {
         if g.rng.chance(1, 15) {
@@ -601,6 +666,49 @@ fn install_foreign(ctx: &mut Context) {
     let _ = main.register_property(js_string!("foreign"), exports, boa_engine::property::Attribute::all(), ctx);
 }
 
+/// Generated names (prefix + number) an entry mentions, in order of appearance.
+fn generated_names(text: &str) -> Vec<String> {
+    let mut out: Vec<String> = vec![];
+    let b = text.as_bytes();
+    let mut i = 0;
+    while i < b.len() {
+        if b[i].is_ascii_alphabetic() || b[i] == b'_' || b[i] == b'$' {
+            let st = i;
+            while i < b.len() && (b[i].is_ascii_alphanumeric() || b[i] == b'_' || b[i] == b'$') {
+                i += 1;
+            }
+            let w = &text[st..i];
+            let stem = w.trim_end_matches(|c: char| c.is_ascii_digit());
+            if stem.len() < w.len() && ["g", "f", "lex", "it", "itb", "ghost", "otherg", "otherf"].contains(&stem) && !out.iter().any(|x| x == w) {
+                out.push(w.to_string());
+            }
+        } else {
+            i += 1;
+        }
+    }
+    out
+}
+
+/// (names the entry needs to exist, names it defines when it completes normally). Histories are
+/// generated with their definitions in place; the shrinker removes entries freely, and an entry
+/// whose definitions were removed is skipped instead of failing for that trivial reason.
+fn deps(e: &Entry) -> (Vec<String>, Vec<String>) {
+    let text = match &e.op {
+        Op::Eval { src } | Op::EvalBudget { src, .. } | Op::Module { src } => src.clone(),
+        Op::Gen { obj, .. } | Op::GenPostMortem { obj } => obj.clone(),
+        Op::Call { func, .. } | Op::Construct { func, .. } => func.clone(),
+    };
+    let names = generated_names(&text);
+    match e.kind.as_str() {
+        "def-var" | "def-let" | "def-fn" | "def-gen" | "def-genbomb" | "ghost-declared-later" => (vec![], names.into_iter().take(1).collect()),
+        "mut-var" | "gdi-redeclaration" | "gdi-lexical-collides-with-global" | "gen-next" | "gen-next-under-limit" | "gen-post-mortem" | "gen-return" | "gen-throw" => {
+            (names.into_iter().filter(|n| !n.starts_with("other") && !n.starts_with("ghost")).collect(), vec![])
+        }
+        _ if matches!(e.op, Op::Gen { .. } | Op::GenPostMortem { .. }) => (names, vec![]),
+        _ => (vec![], vec![]),
+    }
+}
+
 pub fn execute(v: &Value) -> RunReport {
     let sc: Scenario = serde_json::from_value(v.clone()).expect("scenario");
     let mut rep = RunReport::default();
@@ -611,7 +719,14 @@ pub fn execute(v: &Value) -> RunReport {
     install_foreign(&mut x);
     x.eval(Source::from_bytes(PRELUDE)).expect("prelude");
     let mut xlog: Vec<(String, Vec<String>)> = vec![];
+    let mut defined: std::collections::BTreeSet<String> = std::collections::BTreeSet::new();
     for (i, e) in sc.entries.iter().enumerate() {
+        let (needs, defines) = deps(e);
+        if needs.iter().any(|n| !defined.contains(n)) {
+            rep.probe("entry_skipped_definition_missing", 1);
+            xlog.push(("skipped".into(), vec![]));
+            continue;
+        }
         if let Op::GenPostMortem { obj } = &e.op {
             let prev_failed = xlog.last().is_some_and(|(c, _)| failed(c));
             if prev_failed {
@@ -648,9 +763,13 @@ pub fn execute(v: &Value) -> RunReport {
         }
         sfp.add(&format!("{}:{}", e.kind, u8::from(f)));
         match e.expect.as_str() {
-            "ok" if f => rep.violate("plan-mismatch", format!("entry {i} ({}) expected ok, got {comp}", e.kind)),
-            "err" if !f => rep.violate("plan-mismatch", format!("entry {i} ({}) expected failure, got {comp}", e.kind)),
+            // the entry kind is part of the class: shrinking must keep the entry that misbehaves
+            "ok" if f => rep.violate(format!("plan-mismatch:{}", e.kind), format!("entry {i} ({}) expected ok, got {comp}", e.kind)),
+            "err" if !f => rep.violate(format!("plan-mismatch:{}", e.kind), format!("entry {i} ({}) expected failure, got {comp}", e.kind)),
             _ => {}
+        }
+        if !f {
+            defined.extend(defines);
         }
         xlog.push((comp, tr));
     }
